@@ -237,7 +237,7 @@ impl Op {
             Op::CurInsAfter { k, v } => format!("cur.ins_after({},{})", k.short(), v.short()),
             other => {
                 let s = format!("{other:?}");
-                if s.len() > 90 { format!("{}…", &s[..90]) } else { s }
+                if s.chars().count() > 90 { format!("{}…", s.chars().take(90).collect::<String>()) } else { s }
             }
         }
     }
